@@ -32,7 +32,9 @@ Proof. reflexivity. Qed.
 
 (* From the path text (C08Text.v): for paths of steps and filters written as fchain_path writes them, in plain (non-accessor)
    mode: the values `$` P Q returns are the concatenation, in the order P reaches them, of the values `$` Q returns from each
-   value P reaches (a value from which `$` Q fails contributes nothing), and `$` P Q fails exactly when that is empty. *)
+   value P reaches (a value from which `$` Q fails contributes nothing), and `$` P Q fails exactly when that is empty.  Q's
+   filters must not look at the document root (fstep_rootfree: `$` inside a filter of Q would mean the whole document in
+   `$` P Q but the value reached by P in `$` Q); P's may. *)
 From JP Require Import Json Text Tree Grammar Actions Eval WF EvalInv1 KeyDefs FiltChain FiltChainAddr C08Text.
 From Coq Require Import List. Import ListNotations.
 Theorem C08_concatenation_from_text : forall cfg parse_float regex_ok ffun afun regex_match,
@@ -40,13 +42,14 @@ Theorem C08_concatenation_from_text : forall cfg parse_float regex_ok ffun afun 
   (forall f l w, Forall small l -> afun f l = Some w -> small w) ->
   cfg_accessor cfg = false ->
   forall p0 p q0 q doc st,
-  forallb fstep_ok ((p0 :: p) ++ q0 :: q) = true -> forallb (fstep_okp parse_float) ((p0 :: p) ++ q0 :: q) = true -> small doc -> ok st ->
+  forallb fstep_ok ((p0 :: p) ++ q0 :: q) = true -> forallb (fstep_okp parse_float) ((p0 :: p) ++ q0 :: q) = true ->
+  forallb (fstep_rootfree) (q0 :: q) = true -> small doc -> ok st ->
   exists tpq tq,
     parse_with cfg parse_float regex_ok jsonpath_grammar (fchain_path ((p0 :: p) ++ q0 :: q)) = ParseOk tpq /\
     parse_with cfg parse_float regex_ok jsonpath_grammar (fchain_path (q0 :: q)) = ParseOk tq /\
     vals_of (fst (eval_run ffun afun regex_match tpq doc st)) =
-      flat_map (fun lv => vals_of (fst (eval_run ffun afun regex_match tq (snd lv) st))) (nav_allf parse_float (p0 :: p) ([], doc)) /\
+      flat_map (fun lv => vals_of (fst (eval_run ffun afun regex_match tq (snd lv) st))) (nav_allf parse_float doc (p0 :: p) ([], doc)) /\
     ((exists e, fst (eval_run ffun afun regex_match tpq doc st) = OErr e) <->
-     flat_map (fun lv => vals_of (fst (eval_run ffun afun regex_match tq (snd lv) st))) (nav_allf parse_float (p0 :: p) ([], doc)) = []).
+     flat_map (fun lv => vals_of (fst (eval_run ffun afun regex_match tq (snd lv) st))) (nav_allf parse_float doc (p0 :: p) ([], doc)) = []).
 Proof. exact concatenation_from_text. Qed.
 Print Assumptions C08_concatenation_from_text.
